@@ -5,7 +5,7 @@ ID = "C06"
 LEVEL = "proof"
 COQ_TARGETS = ["Props/Properties_C06.vo"] + rc.COQ_COMMON
 PROPS_FILES = ["Props/Properties_C06.v"]
-RUNS = [rc.run("rpc", "s,v", salt=6)]
+RUNS = [rc.run("rpc", "s,v,x", salt=6)]
 DESIGN_REF = "DESIGN.md section 6, C06"
 post = rc.make_post(ID, "rpc")
 
@@ -42,6 +42,9 @@ LEVEL_TEXT = ("Proof (all T1 theorems at history level; the stretch theorem deli
               "delivery_order is modelled (drain, eff_parent, wake_calls) and compared by the differential run (scenarios + "
               "valid stream + window histories in which a second event arrives inside a handler: a Return overtaking a pipelined "
               "Call, a pipelined call arriving during an answer-queue drain): Returns, ids, Disembargo, order seen by the "
-              "instrumented servers, results seen by local callers, table occupancy. Found and repaired: F14, F23, F27.")
+              "instrumented servers, results seen by local callers, table occupancy; plus fault histories (stream x: a transport write "
+              "fails, e.g. the Finish of a canceled call) judged by wire-level invariants only: no crash / wedge / leak and no question "
+              "id reused while the peer still holds it as an unfinished answer (oracle REUSE, also active on the valid stream). "
+              "Found and repaired: F14, F23, F27.")
 LEVEL_NOTE = ("delivery_order (T2, stretch) is not proved: differential run only. question_ids first half is stated for a connection that is up. "
               "See coq/Props/Properties_C06.v for the full statements.")
